@@ -85,6 +85,9 @@ OP_VERBS = {
     "fetch": _FETCH_VERBS,
     "stack": ["BzrDirFormat.initialize", "BzrDir.create_repository", "BzrDir.create_branch", "Branch.put_config_file", "Repository.insert_stream_1.19", "Branch.set_last_revision_info", "mkdir"],
 }
+# operations that a caller can simply repeat on the same objects after a reported connection failure
+INPLACE_OPS = {"set_tag", "del_tag", "get_tags", "conf_set", "conf_get", "set_last", "set_parent", "get_parent", "pull", "push", "fetch", "lock", "info", "parent_map", "rev", "tree", "revno_of", "get_rev_id", "has_rev", "all_revs"}
+STORE_ERR_OPS = {"set_tag", "del_tag", "set_last", "set_parent", "conf_set", "pull", "push", "fetch"}
 DEFERRED = ("conf", "parent", "stacked")
 # verb classes an operation is expected to use (only to aim resets; nothing is judged by it)
 OP_CLASSES = {
@@ -166,10 +169,37 @@ def generate(rng, tier):
         "all_revs": 1,
     }
     kinds = sorted(weights)
-    while len(ops) < nops:
-        k = rng.choices(kinds, [weights[x] for x in kinds])[0]
-        if locked and rng.random() < 0.3:
-            k = "unlock"
+    inner = [x for x in kinds if x not in ("lock", "stack", "reopen")]
+    forced = []  # operation kinds of an outer lock span still to be generated
+    nspans = rng.choice([0, 0, 1, 1, 1, 2])
+    span_at = sorted(rng.sample(range(0, max(1, nops - 1)), min(nspans, max(1, nops - 1)))) if nspans else []
+    spans = []  # [first, last] op index of every outer lock span (lock ... unlock)
+    while len(ops) < nops or forced:
+        if not forced and not locked and span_at and len(ops) >= span_at[0]:
+            span_at.pop(0)
+            # SEVERAL operations inside ONE outer branch write lock
+            t = rng.random()
+            if t < 0.3:
+                body = ["commit", "pull_new", "commit"] + rng.choice([[], ["info"], ["get_tags"], ["pull_new", "commit"]])
+            elif t < 0.45:
+                body = rng.choice([["pull_new", "commit"], ["commit", "push_new", "tree"], ["commit", "fetch", "set_last", "commit"]])
+            elif t < 0.65:
+                body = ["set_tag"] + rng.choice([["get_tags", "set_tag"], ["pull_new", "get_tags", "set_tag"], ["del_tag", "get_tags"], ["set_tag", "pull_new", "del_tag", "get_tags"]])
+            elif t < 0.75:
+                body = rng.sample(["conf_set", "conf_get", "set_parent", "get_parent", "conf_set"], rng.randint(2, 4))
+            else:
+                body = [rng.choices(inner, [weights[x] for x in inner])[0] for _ in range(rng.randint(2, 5))]
+            forced = ["lock"] + body + ["unlock"]
+            spans.append([len(ops), len(ops) + len(forced) - 1])
+        if forced:
+            k = forced.pop(0)
+        else:
+            k = rng.choices(kinds, [weights[x] for x in kinds])[0]
+            if locked and rng.random() < 0.3:
+                k = "unlock"
+        want_new = k.endswith("_new")
+        if want_new:
+            k = k[:-4]
         some_rev = rng.choice(sorted(revs) + src_ids[:2]) if rng.random() < 0.85 else rng.choice(src_ids + ["nope-1"])
         if k == "commit":
             ncommit += 1
@@ -183,6 +213,10 @@ def generate(rng, tier):
             revs.add(tip)
         elif k in ("pull", "push"):
             rid = rng.choice(src_ids)
+            if want_new:
+                # something that really transfers revisions and moves the tip
+                newer = [r for r in src_ids if r not in revs and tip in mh.ancestry(r)]
+                rid = rng.choice(newer) if newer else rid
             ow = rng.random() < 0.3
             ops.append({"op": k, "rev": rid, "overwrite": ow})
             anc = mh.ancestry(rid)
@@ -253,8 +287,13 @@ def generate(rng, tier):
         "seg": {"m": rng.choice(["hot", "hot", "rand", "whole"]), "ph": rng.choice([0.1, 0.3, 0.6]), "sh": rng.random() < 0.6, "s": rng.randrange(1 << 30)},
         "resets": [],
     }
+    if rng.random() < 0.5:
+        plan["src_tags"] = {name: rng.choice(src_ids) for name in rng.sample(["s-tag", "t1", "rel 1.0"], rng.randint(1, 2))}
+    in_span = {j for a, b in spans for j in range(a + 1, b)}
     if rng.random() < 0.65:
-        i = rng.choices(range(len(ops)), [(10 if o["op"] == "commit" else 4) if o["op"] in ("commit", "pull", "push", "fetch", "stack") else (2 if o["op"] in OP_CLASSES else 1) for o in ops])[0]
+        w = [(10 if o["op"] == "commit" else 4) if o["op"] in ("commit", "pull", "push", "fetch", "stack") else (2 if o["op"] in OP_CLASSES else 1) for o in ops]
+        w = [x * (3 if j in in_span else 1) for j, x in enumerate(w)]
+        i = rng.choices(range(len(ops)), w)[0]
         classes = OP_CLASSES.get(ops[i]["op"], ["read"])
         deep = ops[i]["op"] == "commit"  # a commit through the VFS verbs makes dozens of requests
         cls = rng.choice(classes + ["any"])
@@ -265,10 +304,18 @@ def generate(rng, tier):
                 "op": i,
                 "cls": cls,
                 "nth": rng.choice([0, 1, 1, 2, 2, 3, 4, 5, 6, 8]) if deep else rng.choice([0, 0, 0, 0, 1, 1, 2, 3]),
-                "kind": rng.choice(["send", "eof_after", "eof_after"]),
+                # send2 / eof_send: the client's own single retry is reset as well, so the operation fails
+                "kind": rng.choice(["send", "eof_after", "eof_after", "send2", "send2", "eof_send"]),
                 "write": rng.choice([0, 0, 1, 2]),
+                # how the session goes on after a failure the client may report: retry the operation on the
+                # same objects (inside the same lock), or break_lock + fresh objects
+                "recover": rng.choice(["inplace", "inplace_reset", "inplace_reset", "reopen"]),
             }
         )
+        if ops[i]["op"] in STORE_ERR_OPS and rng.random() < 0.3:
+            # instead of a reset: the SERVER's disk fails once (an error response, the connection stays usable)
+            simple = ops[i]["op"] not in ("pull", "push", "fetch")
+            plan["resets"][-1].update(kind="store_err", at=rng.randint(1, 3) if simple else rng.randint(1, 14), err=rng.choice(["transport", "enospc", "permission"]), cls="none")
     return plan
 
 
@@ -373,8 +420,12 @@ def _install_hooks():
             spec = w.pending
             if spec is not None and w.armed is None and not nsent and spec["cls"] in ("any", cls, "verb:" + verb):
                 if w.matching == spec["nth"]:
-                    w.ww.resets.append({"req": idx, "kind": spec["kind"], "write": spec.get("write", 0)})
-                    w.armed = {"req": idx, "verb": verb, "cls": cls, "kind": spec["kind"], "stream": self.body_stream is not None, "encoder": encoder, "reset": w.ww.resets[-1]}
+                    first = {"send2": "send", "eof_send": "eof_after"}.get(spec["kind"], spec["kind"])
+                    rec = {"req": idx, "kind": first, "write": spec.get("write", 0)}
+                    w.ww.resets.append(rec)
+                    if first != spec["kind"]:
+                        w.ww.resets.append({"req": idx + 1, "kind": "send", "write": 0})  # the client's retransmission is lost too
+                    w.armed = {"req": idx, "verb": verb, "cls": cls, "kind": spec["kind"], "stream": self.body_stream is not None, "encoder": encoder, "reset": rec}
                 w.matching += 1
         return orig(self, encoder)
 
@@ -675,7 +726,11 @@ def execute(sim, plan):
     url_s = world.new_store("s")
     for url in (url_a, url_b):
         storesim.commit_specs(storesim.make_branch(url + "br", fmt), base)
-    storesim.commit_specs(storesim.make_branch(url_s + "br", fmt), src)
+    sbranch = storesim.make_branch(url_s + "br", fmt)
+    storesim.commit_specs(sbranch, src)
+    for name, rid in sorted((plan.get("src_tags") or {}).items()):
+        sbranch.tags.set_tag(name, _b(rid))
+    del sbranch
     ww = wiresim.WireWorld(sim, get_transport(url_b), server=plan.get("server", "pipe"), server_read="atmost", client_read=plan.get("client_read", "atmost"), seg=plan.get("seg"), name="b")
     watch = sim.c32_watch = _Watch(sim, ww)
     A = Side("A", url_a, url_a, url_s, fmt)
@@ -698,8 +753,30 @@ def execute(sim, plan):
         if "unreadable" in o:
             sim.fail("unreadable", ["unreadable", who, opk, mode], f"store {who} after {opk}: {o['unreadable']}")
 
+    pulled_in_span = False  # a pull ran inside the outer lock span that is still open
+    src_tag_names = set(plan.get("src_tags") or {})
+
+    def stale_tags_after_pull(opk, ra, rb, d):
+        """The one deviation with a known cause: RemoteBranch.pull runs on the VFS branch and
+        merges the source's tags there; the RemoteBranch's own tags cache (valid for the whole
+        outer lock) is not invalidated, so tag reads are stale and tag writes put the stale dict back."""
+        if not (pulled_in_span and A.depth and src_tag_names and opk in ("get_tags", "set_tag", "del_tag")):
+            return False
+        if opk == "get_tags":
+            ta, tb = dict(map(tuple, norm(ra))), dict(map(tuple, norm(rb)))
+        else:
+            if d != ["br.tags"]:
+                return False
+            ta, tb = dict(map(tuple, obs_a["br"]["tags"])), dict(map(tuple, obs_b["br"]["tags"]))
+        missing = {k for k in ta if ta[k] != tb.get(k)}
+        return bool(missing) and missing <= src_tag_names and all(k in ta for k in tb)
+
     for i, op in enumerate(plan["ops"]):
         opk = op["op"]
+        if not A.depth:
+            pulled_in_span = False  # no outer lock is open
+        elif opk == "pull":
+            pulled_in_span = True
         if opk == "stack" and op["name"] not in names:
             names.append(op["name"])
         pre_a = obs_a
@@ -715,9 +792,18 @@ def execute(sim, plan):
         del watch.op_verbs[:]
         del watch.retried[:]
         n0 = ww.nreq
+        spec = watch.pending
+        store_err = spec is not None and spec["kind"] == "store_err"
+        if store_err:
+            watch.pending = None
+            nerr0 = sim.faults_fired["err_before"]
+            sim.arm([{"kind": "err_before", "at": spec["at"], "count": "mut", "err": spec["err"]}])
         rb = B.run(op)
+        sim.disarm()
         watch.pending = None
         armed = watch.armed
+        if store_err and sim.faults_fired["err_before"] > nerr0:
+            armed = {"kind": "store_err", "cls": spec["err"], "verb": "server-disk", "stream": False, "encoder": None, "reset": {"done": True}}
         fired = bool(armed and armed["reset"].get("done"))
         ww.resets = [r for r in ww.resets if r.get("done")]
         obs_b = observe(B, names, mh, seen_b)
@@ -744,15 +830,66 @@ def execute(sim, plan):
         if fired:
             if armed["kind"] == "send":
                 must_hide = not (armed["stream"] and getattr(armed["encoder"], "body_stream_started", False))
+            elif armed["kind"] in ("send2", "eof_send", "store_err"):
+                must_hide = False  # the client retries once; two resets in a row (or a server-side disk error) it has to report
             else:
                 must_hide = armed["cls"] in ("read", "idem")
-        if not b_ok and fired and not must_hide:
+        strict_ok = a_ok == b_ok and (not a_ok or norm(ra) == norm(rb)) and not obs_diff(obs_a, obs_b, ignore=DEFERRED if A.depth else ())
+        if fired and not must_hide and b_ok and not strict_ok:
+            # the operation reported success although a request of it failed for good (errors of
+            # unlock are suppressed by design): what it reported must be true - only the lock may have leaked
+            d = obs_diff(obs_a, obs_b, ignore=("phys",) + (DEFERRED if A.depth else ()))
+            if not a_ok or norm(ra) != norm(rb) or d:
+                sim.fail(
+                    "false_success",
+                    ["false_success", opk, ",".join(d) or "result"] + tag,
+                    f"op {i} {op} returned normally on B ({norm(rb)!r:.200}; locally {ra!r:.200}) although {tag} made a request of it fail; stores differ in {d}: A={[_pick(obs_a, x) for x in d]!r:.600} B={[_pick(obs_b, x) for x in d]!r:.600}; verbs {watch.op_verbs}",
+                )
+            sim.probe("lock_leaked_by_suppressed_unlock_error")
+        if fired and not must_hide and not strict_ok:
             # ---- relaxed oracle: a failure the client is allowed to report ---------------
             sim.probe("relaxed_failure")
             sim.probe(f"relaxed_failure_{armed['cls']}")
-            sim.event("relaxed", armed["verb"], rb.name)
-            if armed["verb"] in watch.retried and armed["cls"] not in ("semi",):
+            sim.event("relaxed", armed["verb"], getattr(rb, "name", "ok"))
+            if armed["verb"] in watch.retried and armed["kind"] in ("eof_after", "eof_send") and armed["cls"] in ("stream", "mutate", "semivfs"):
                 sim.fail("resent", ["resent", armed["cls"], armed["verb"]], f"op {i} {opk}: the client re-sent {armed['verb']} ({armed['cls']}) after a reset ({armed['kind']})")
+            spec = next((r for r in plan.get("resets", []) if r["op"] == i), {})
+            server_saw_nothing = armed["kind"] in ("send2", "send")
+            recover = spec.get("recover", "reopen")
+            if not b_ok and recover in ("inplace", "inplace_reset") and opk in INPLACE_OPS and (server_saw_nothing or armed["kind"] == "store_err" or armed["cls"] in ("read", "idem")):
+                # ---- the caller simply tries again: same objects, same (outer) lock -------------
+                sim.probe("inplace_retry")
+                if recover == "inplace_reset" and ww.shared_medium is not None:
+                    ww.shared_medium.reset()  # what a caller that knows about the stuck medium does first (see known findings)
+                if A.depth:
+                    sim.probe("inplace_retry_inside_outer_lock")
+                where = "inside-lock" if A.depth else "unlocked"
+                rb2 = B.run(op)
+                obs_b = observe(B, names, mh, seen_b)
+                check_readable(obs_b, "B", opk)
+                sim.event("inplace", opk, "failed:" + rb2.name if isinstance(rb2, Failed) else "ok")
+                if a_ok and isinstance(rb2, Failed) and rb2.name == "TooManyConcurrentRequests" and recover == "inplace":
+                    sim.fail(
+                        "inplace_retry",
+                        ["inplace_retry", "medium-unusable-after-failed-retransmission"],
+                        f"op {i} {op}: failed on B with {rb!r} after reset {tag} (the client's one retransmission was reset too); every later call on the same medium - here the same operation repeated ({where}) - fails with {rb2!r:.300}: _SmartClientRequest._send/_call reset the medium only after the FIRST ConnectionResetError, the failed retransmission leaves medium._current_request set",
+                    )
+                if a_ok and isinstance(rb2, Failed):
+                    sim.fail(
+                        "inplace_retry",
+                        ["inplace_retry", opk, "failed-again", where] + tag,
+                        f"op {i} {op}: failed on B with {rb!r} after reset {tag}; the same call repeated on the same objects ({where}) failed again: {rb2!r:.500}; locally it succeeded ({ra!r:.200})",
+                    )
+                if a_ok and opk not in ("pull", "push", "fetch") and norm(rb2) != norm(ra):
+                    sim.fail("inplace_retry", ["inplace_retry", opk, "value", where] + tag, f"op {i} {op}: repeated after a reported failure ({where}) it returned {norm(rb2)!r:.500}, locally {norm(ra)!r:.500}")
+                d = obs_diff(obs_a, obs_b, ignore=DEFERRED if A.depth else ())
+                if d:
+                    sim.fail(
+                        "inplace_retry",
+                        ["inplace_retry", opk, ",".join(d), where] + tag,
+                        f"op {i} {op}: failed on B with {rb!r} after reset {tag}, then repeated on the same objects ({where}) -> {rb2!r:.200}; stores differ in {d}: A={[_pick(obs_a, x) for x in d]!r:.700} B={[_pick(obs_b, x) for x in d]!r:.700}; verbs {watch.op_verbs}",
+                    )
+                continue
             A_unlocked = A.depth
             while A.depth:
                 A.depth -= 1
@@ -830,8 +967,20 @@ def execute(sim, plan):
                         ["result_mismatch", "parent_map", "null-revision-dropped-when-asked-with-other-keys"],
                         f"op {i} {op}: Repository.get_parent_map locally returns {{'null:': ()}} among {norm(ra)!r}; RemoteRepository.get_parent_map returns {norm(rb)!r} (no entry for null:)",
                     )
+            if stale_tags_after_pull(opk, ra, rb, []):
+                sim.fail(
+                    "stale_tags_cache",
+                    ["stale_tags_cache", "pull-inside-outer-write-lock"],
+                    f"op {i} {op}: inside one outer write lock, after a pull that merged the source's tags {sorted(src_tag_names)}, RemoteBranch.tags.get_tag_dict() returned {norm(rb)!r:.300} (its cache from before the pull); locally {norm(ra)!r:.300}",
+                )
             sim.fail("result_mismatch", ["result_mismatch", opk, "value"] + (tag if fired else [mode]), f"op {i} {op}: local returned {norm(ra)!r:.800}, through the server {norm(rb)!r:.800}; verbs {watch.op_verbs}")
         d = obs_diff(obs_a, obs_b, ignore=DEFERRED if A.depth else ())
+        if d and stale_tags_after_pull(opk, ra, rb, d):
+            sim.fail(
+                "stale_tags_cache",
+                ["stale_tags_cache", "pull-inside-outer-write-lock"],
+                f"op {i} {op}: inside one outer write lock, after a pull that merged the source's tags {sorted(src_tag_names)}, the tag write started from RemoteBranch's tags cache from before the pull and stored it back: the merged tags are lost on the server: A={obs_a['br']['tags']!r:.300} B={obs_b['br']['tags']!r:.300}",
+            )
         if d:
             sim.fail(
                 "state_mismatch",
